@@ -33,8 +33,10 @@ def _recheck(run):
 CHECK = {
     "suites": [suite("schedules", "c05", 800, 8000, stdin=True, timeout={"quick": 600, "thorough": 2400})],
     "extra": [_recheck],
-    "gen": [{"pkg": "extract_c05", "out": "lean/ClusterVerif/Gen/C05.lean"}],
-    "lean_sources": ["ClusterVerif/Model/C05Source.lean", "ClusterVerif/Gen/C05.lean", "ClusterVerif/Model/C05.lean", "ClusterVerif/Model/C05R.lean", "ClusterVerif/Spec/C05.lean", "ClusterVerif/Lemmas/C05.lean", "ClusterVerif/Lemmas/C05R.lean"],
+    "gen": [{"pkg": "extract_c05", "out": "lean/ClusterVerif/Gen/C05.lean"},
+            {"pkg": "extract_c05t", "out": "lean/ClusterVerif/Gen/C05T.lean"}],
+    "lean_sources": ["ClusterVerif/Model/C05Source.lean", "ClusterVerif/Gen/C05.lean", "ClusterVerif/Model/C05.lean", "ClusterVerif/Model/C05R.lean", "ClusterVerif/Spec/C05.lean", "ClusterVerif/Lemmas/C05.lean", "ClusterVerif/Lemmas/C05R.lean",
+                     "ClusterVerif/Model/C05T.lean", "ClusterVerif/Gen/C05T.lean", "ClusterVerif/Lemmas/C05T.lean"],
     "rule": "gated schedules on the real stateless tracker: 0-40 scripted actions (track / untrack / recover / recoverAll, daemon applies / answers nil / "
             "answers an error for a parked call — the oldest of the cid or specifically its Pin / Unpin call —, daemon loses a pin, an answer racing with an instruction) over 3-4 CIDs with local / everywhere / "
             "cluster-dag / remote / remote-without-allocations / meta pins, recursive and direct, 3 option variants; queue size 1-3, 1-3 pin workers; "
@@ -72,10 +74,15 @@ META = {
             "operation and no completion writes afterwards. Round 8: Untrack always leaves an Unpin operation in the table that is refused (ErrFullQueue, error status) or alive in the unpin channel / parked at the daemon, "
             "whatever the table held — also a pin still waiting in the channel (untrack_unpin_on_its_way); the shortcut 'cancel the queued pin and forget it' is refuted with a witness (unqueue_shortcut_breaks: "
             "quiescent, pinset empty, daemon pins the cid, recover finds nothing); the first sentence as a whole-history statement after ONE instruction from any reachable state "
-            "(untrack_converges, track_converges: any later events that leave that cid's pinset entry alone). The model is tied to the "
+            "(untrack_converges, track_converges: any later events that leave that cid's pinset entry alone). Round 8b: the operation tracker is tied SEMANTICALLY, not only by its text: "
+            "a go/ast translator (harness/extract_c05t) regenerates the decision tables of TrackNewOperation (existing op x new type x phase), Clean (pointer test), applyPinF (cancelled / call / error / "
+            "cancelled-meanwhile paths), trackerStatus (type x phase), Operation.SetPhase / SetError / Cancel / Cancelled and the switch of recoverWithPinInfo over all 13 statuses as paths "
+            "(literals in short-circuit order, actions), unknown syntax = .unknown = failed obligation; Model/C05T.lean interprets them and gen_table_* prove for ALL inputs that the executed "
+            "table is the model's trackNew / retOk's Clean / startCall / retOk / retErr / reap / opStatus / recAction+recPin; the wrong guard 'dedupe also against an errored operation' is refuted as a table "
+            "(wrong_guard_table_refuted). The model is tied to the "
             "code by running thousands of scripted schedules on the real tracker against a gated fake daemon and comparing every stable-point observation with the "
             "model, and the Lean property clauses are evaluated on the implementation's own observations.",
     "note": "Trusted: Lean kernel, hand-written model/spec, the gated daemon and stable-point detection of the harness. The suspected defect 'a re-track with another mode "
             "is deduplicated' is real behaviour but ends in pin_error (Status asks the daemon for the recorded mode) and is repaired by recover: no finding.",
-    "technique": "regenerated source text of the anchored functions and the function inventory of the anchored files checked against the transcribed snapshot (rfl) + Lean 4 inductive invariant over an LTS + schedule-level differential correspondence against a gated daemon",
+    "technique": "decision tables of the operation tracker regenerated from the Go syntax tree and interpreted by the model (theorems for all inputs) + regenerated source text of the anchored functions and the function inventory of the anchored files checked against the transcribed snapshot (rfl) + Lean 4 inductive invariant over an LTS + schedule-level differential correspondence against a gated daemon",
 }
